@@ -259,7 +259,7 @@ def canon(x):
             x = x[:x.index(tag)]
     if x[:2] in ("D ", "S ") and x[2:] != "-":
         return x[:2] + ",".join(sorted(x[2:].split(","), key=int))
-    if x in ("N", "U", "J"):
+    if x in ("N", "U", "J", "K"):
         return "D -"
     if x.startswith("G ") and x != "G -":
         parts = []
@@ -479,7 +479,7 @@ def run(ctx):
                 break
             if op == "disc":
                 gone.add(":1.%d" % s["plan"][int(ml[j].split()[1])])
-                if " x=" in m_raw and not m_raw.endswith(" x=0") and spec_live:
+                if " x=" in m_raw and " x=0" not in m_raw and spec_live:
                     # the matchmaker also dropped other connections' rules naming the leaving unique name
                     if "C07-N3" in known:
                         rep.known(known["C07-N3"], ml[j])
